@@ -212,6 +212,15 @@ fn gen(tier: Tier) -> Vec<XCase> {
         0, 1, 7, 8, 9, 10, 15, 16, 32, 48, 63, 64, 65, 97, 122, 126, 127, 128, 255, 256, 511, 512, 1000, 4095, 4096, 32767,
         32768, 65535, 65536, 1 << 31, 1 << 32, 1 << 62, i64::MAX, 11, 12, 160, 233, 0xb, 0xb11, 0xbad, 0xb0b, 0xb1, 0xb0, 0xe, 0xabcdef, 0xface, 0xdead, 0xb10, 0xb101,
     ];
+    // flat chains of one operator, 250 links: two-character operators are operators like the others
+    for (op, leaf, val) in [(BinOp::LOr, 0, 1i64), (BinOp::LAnd, 1, 1), (BinOp::Shl, 0, 1), (BinOp::Shr, 0, 1), (BinOp::Eq, 1, 1), (BinOp::Ne, 0, 1), (BinOp::Le, 1, 1), (BinOp::Ge, 1, 1), (BinOp::Or, 0, 1), (BinOp::Add, 0, 1), (BinOp::Lt, 2, 1)] {
+        let mut e = num(1);
+        for _ in 0..250 {
+            e = bin(op, e, num(leaf));
+        }
+        let _ = val;
+        v.push(XCase { e, group: "long-chains" });
+    }
     // a unary operator directly on another one, over the values at the ends of the range (the
     // lowest value can only be computed): nothing is simplified away, every step is checked
     {
